@@ -33,8 +33,12 @@ def emit(prop, seed, idxs):
     return out
 
 
+PYC = None
+
+
 def child(prop, seed, idxs, hashseed):
-    env = dict(os.environ, PYTHONHASHSEED=str(hashseed), PYTHONDONTWRITEBYTECODE="1")
+    env = dict(os.environ, PYTHONHASHSEED=str(hashseed), LEAGUESIM_PYC=PYC)
+    env.pop("PYTHONDONTWRITEBYTECODE", None)
     for k in list(env):
         if k.startswith("COVERAGE") or k.startswith("COV_CORE"):
             del env[k]
@@ -49,6 +53,18 @@ def main(argv):
     if "--long" in argv:
         n = int(argv[argv.index("--long") + 1])
     seed = int(os.environ.get("VERIF_SEED", "1"))
+    import shutil
+    import tempfile
+
+    global PYC
+    PYC = tempfile.mkdtemp(prefix="leaguesim-pyc-")
+    try:
+        return compare(n, seed)
+    finally:
+        shutil.rmtree(PYC, ignore_errors=True)
+
+
+def compare(n, seed):
     bad = 0
     total = 0
     procs = []
